@@ -139,6 +139,10 @@ type Layout struct {
 	PadByte   byte
 	RandomPad bool
 	MinLen    int // trailing padding up to this length (the library's header search needs 32 bytes)
+	// SlotFill: the bytes of a 4-byte value slot that an embedded value does not use (a single
+	// SHORT, a BYTE, a short string) hold arbitrary non-zero bytes instead of zeros; TIFF leaves
+	// them undefined.
+	SlotFill bool
 }
 
 type block struct {
@@ -293,6 +297,9 @@ func BuildTIFF(root *Dir, L Layout) Built {
 				} else {
 					for k := 0; k < 4; k++ {
 						out[p+8+k] = 0
+						if L.SlotFill && r != nil {
+							out[p+8+k] = byte(1 + r.Intn(255))
+						}
 					}
 					copy(out[p+8:], data)
 				}
